@@ -39,7 +39,7 @@ class DT:
     def signed(self):
         return self.family in ('int', 'float')
 
-    def rng_value(self, rng, valid=True):
+    def rng_value(self, rng, valid=True, raw=False):
         """In-range (valid) or just-out-of-range / wrongly sized (invalid) JSON-able value."""
         f = self.family
         if f in ('uint', 'int'):
@@ -49,6 +49,13 @@ class DT:
             return rng.choice([lo - 1, hi + 1, hi + (1 << self.n), lo - (1 << self.n)])
         if f == 'float':
             if valid:
+                if raw and rng.random() < 0.08:
+                    # a value the format cannot hold exactly and that lies at or beyond its range: the encoder's overflow / saturation rule applies
+                    return rng.choice([1e39, -1e39, 1e300, -1e300, -7e4, 7e4, 65519.0, -65520.0, 3.4028235e38, 1e-50, -1e-50, 5e5, -5e5])
+                if self.name in K.MINI:
+                    # any code of the format, or a common value rounded to it
+                    v = K.decode(self.name, format(rng.getrandbits(self.n), f'0{self.n}b')) if rng.random() < 0.6 else rng.choice([0.0, -0.0, 1.0, -1.5, 0.3, 6.0, -448.0, 100.0, 1e-3])
+                    return K.decode(self.name, K.encode(self.name, self.n, v))
                 v = K.rand_float(rng, self.n)
                 # store exactly representable values so that list equality is meaningful
                 return K.decode(self.name, K.encode(self.name, self.n, v))
@@ -125,6 +132,10 @@ def dtypes_pool():
         pool.append(DT(f'floatle{n}', 'floatle', n, 'float'))
     pool.append(DT('floatne32', 'floatne', 32, 'float'))
     pool.append(DT('bfloat', 'bfloat', 16, 'float'))
+    pool.append(DT('bfloatle', 'bfloatle', 16, 'float'))
+    for nm in K.MINI:
+        pool.append(DT(nm, nm, K.mf.CODECS[nm].nbits, 'float'))
+    pool.append(DT('bfloatne', 'bfloatne', 16, 'float'))
     for n in (1, 5, 8):
         pool.append(DT(f'bits{n}', 'bits', n, 'bits'))
     for n in (1, 3):
